@@ -354,6 +354,32 @@ def tmpl_multi_logical(rng, nodes, lits):
     return [parent, ps, inner, other]
 
 
+def tmpl_several_lists(rng, nodes, lits):
+    """a shape with SEVERAL sh:or (sh:and / sh:xone) lists: every list is a constraint of its own and all of them must hold;
+    one list is (nearly) always satisfied, another one hardly ever - whichever the component happens to consult first"""
+    u = _uid(rng)
+    iri_nodes = [n for n in nodes if isinstance(n, URIRef)]
+    easy = new_shape(BNode("ve%s" % u), None)
+    easy["comps"].append(("nodekind", rng.choice(["NKIRIOrLiteral", "NKBlankNodeOrIRI", "NKIRI"])))
+    hard = new_shape(BNode("vh%s" % u), None)
+    hard["comps"].append(rng.choice([("class", [EX.NoSuchClass]), ("in", []), ("nodekind", "NKLiteral"), ("hasvalue", [EX.absent])]))
+    other = new_shape(BNode("vo%s" % u), None)
+    other["comps"].append(("nodekind", rng.choice(["NKLiteral", "NKBlankNode", "NKIRI"])))
+    kind = rng.choice(["or", "or", "or", "and", "xone"])
+    lists = [[easy["id"]], [hard["id"]]] + ([[other["id"], hard["id"]]] if rng.random() < 0.4 else [])
+    rng.shuffle(lists)
+    on_prop = rng.random() < 0.4
+    host = new_shape(EX["SVL%s" % u], ("pred", rng.choice(PREDS[:2])) if on_prop else None)
+    host["targets"]["nodes"] = rng.sample(iri_nodes, min(2, len(iri_nodes)))
+    # either one component entry per list or one entry with all the lists: the same shapes graph
+    if rng.random() < 0.5:
+        host["comps"].append((kind, lists))
+    else:
+        host["comps"].extend((kind, [l_]) for l_ in lists)
+    host["sev"] = rng.choice([None, None, SH.Warning])
+    return [host, easy, hard, other]
+
+
 def add_templates(rng, shapes, nodes, lits, p=0.5):
     if rng.random() < p:
         shapes.extend(tmpl_custom(rng, nodes, lits))
